@@ -48,7 +48,8 @@ ASSUMPTIONS = [
 ]
 PROBES = [
     "vector_only_vs_tensor_only", "negative_mean_data", "single_row_parts", "rejected_between_accepted",
-    "negative_axis", "float32_part", "mean_much_larger_than_std", "nostats_after_aborted_apply", "many_frames_in_one_call", "tensor_4d", "apply_vector", "apply_tensor", "no_stats_tensor", "midway_apply",
+    "negative_axis", "float32_part", "mean_much_larger_than_std", "nostats_after_aborted_apply", "many_frames_in_one_call",
+    "no_stats_single_vector_tensor", "tensor_4d", "apply_vector", "apply_tensor", "no_stats_tensor", "midway_apply",
 ]
 FAULT_KINDS = ["rejected_wrong_dim", "rejected_empty", "apply_aborted_by_warning"]
 
@@ -156,6 +157,10 @@ def generate(rng, tier, k):
         nostats = {"m": rng.randrange(3, 20), "seed": rng.randrange(1 << 30), "norm_var": rng.random() < 0.7,
                    "form": rng.choice(("md", "dm", "t3")), "pos": rng.randrange(0, 3), "neg_axis": rng.random() < 0.5,
                    "dtype": rng.choice(("float64", "float32")), "abort_first": rng.random() < 0.3}
+        if rng.random() < 0.4:
+            nostats["single"] = {"ndim": rng.choice((2, 3)), "pos": rng.randrange(0, 3), "neg_axis": rng.random() < 0.5,
+                                 "norm_var": rng.random() < 0.3, "in_place": rng.random() < 0.5,
+                                 "dtype": rng.choice(("float64", "float32", "int16"))}
     midway = rng.random() < 0.3
     return {"data": rec, "histories": hist, "queries": queries, "nostats": nostats, "midway": midway}
 
@@ -410,6 +415,8 @@ def execute(scn, keep_trace=False):
     ns = scn.get("nostats")
     if ok and ns:
         _check_nostats(ns, d, res, tr, facts)
+        if ns.get("single"):
+            _check_nostats_single(ns, d, res, tr, facts)
 
     res.digest = tr.digest()
     res.events = tr.n
@@ -574,6 +581,32 @@ def _check_nostats(ns, d, res, tr, facts):
         exp = x64 - x64.mean(axis=other, keepdims=True)
         if np.max(np.abs(out - exp)) > 1e-9 * (1 + np.abs(x64).max()):
             res.violate("NOSTATS", "no-statistics result (norm_var False) is not x - mean", phase="nostats", **facts)
+
+
+def _check_nostats_single(ns, d, res, tr, facts):
+    """Without statistics a tensor that holds ONE feature vector cannot be standardised: with norm_var it is refused
+    (ValueError), without it the documented result is the zero vector - float64 like every result."""
+    res.probe("no_stats_single_vector_tensor")
+    sg = ns["single"]
+    shape = [1] * int(sg["ndim"])
+    pos = int(sg["pos"]) % len(shape)
+    shape[pos] = d
+    arr = (np.arange(d, dtype=np.float64) * 1.5 - 2.0).reshape(shape).astype(sg.get("dtype", "float64"))
+    inst = _post.Standardize(norm_var=bool(sg.get("norm_var", False)))
+    try:
+        with warnings.catch_warnings():
+            warnings.simplefilter("ignore")
+            out = inst.apply(arr, pos - len(shape) if sg.get("neg_axis") else pos, bool(sg.get("in_place")))
+    except ValueError:
+        return
+    except Exception as e:
+        res.violate("RAISES", "apply of a single-vector tensor without statistics raised %s: %s" % (type(e).__name__, e),
+                    phase="nostats", **facts)
+        return
+    tr.log("nostats_single", out)
+    if not isinstance(out, np.ndarray) or out.dtype != np.float64:
+        res.violate("DTYPE", "apply without statistics on a %s tensor of shape %s (in_place=%s) returned %s, expected float64"
+                    % (arr.dtype, arr.shape, sg.get("in_place"), getattr(out, "dtype", type(out))), phase="nostats", **facts)
 
 
 def minimise(scn, test, budget):
